@@ -118,6 +118,7 @@ struct Result {
     bool nontrivial = false;
     std::vector<std::string> classes;
     bool skipped = false;      // excluded (known finding region) - counted separately
+    bool window = false;       // the verdict may depend on earlier cases of this process (pooled instance): save them too
     bool fatal = false;        // process state is poisoned (e.g. LeakSanitizer is sticky): save this case unshrunk and stop
     void fail(const std::string &m) { if (ok) { ok = false; msg = m; } }
     void cls(const std::string &c) { classes.push_back(c); }
@@ -275,6 +276,14 @@ inline Result exec_case(const Case &c, const RunFn &run) {
     s.recent.push_back(c.text());
     if (s.recent.size() > 4500) s.recent.pop_front();
     s.since_leak_check++;
+    if (r.window && !r.ok) {
+        std::string multi;
+        for (auto &t : s.recent) { if (!multi.empty()) multi += "---\n"; multi += t; }
+        s.save_failure(multi, r.msg + " [history of " + std::to_string(s.recent.size()) + " cases on long-lived instances; the last one failed]");
+        s.flush();
+        fflush(stdout);
+        _exit(1);
+    }
     if (r.fatal && !r.ok) {
         s.save_failure(c.text(), r.msg);
         s.flush();
